@@ -232,6 +232,10 @@ def match_known(f, known):
             continue
         if "after" in k and f.get("after") not in k["after"]:
             continue
+        if "fields" in k and any(f.get(a) != b for a, b in k["fields"].items()):
+            continue
+        if "interfaces_allowed" in k and not set(f.get("interfaces", [])) <= set(k["interfaces_allowed"]):
+            continue
         if "causes_allowed" in k:
             cs = (f.get("detail") if isinstance(f.get("detail"), dict) else {}).get("causes") or []
             if not cs or not set(cs) <= set(k["causes_allowed"]):
